@@ -45,11 +45,23 @@ BFS_SEEDS = [
 ]
 
 
+LEX_FAILS = []
+
+
 def lex(text):
+    """lexemes of a seed text (the repository's own lexer).  If the lexer itself fails on a seed, every query on that
+    workspace would fail too: remembered and reported as a violation by flush_lex_failures, the seed is split on blanks."""
     p = vlib.run_bin("lexdump", stdin_data=text)
     if p.returncode != 0:
-        raise vlib.ToolError("lexdump failed")
+        LEX_FAILS.append({"text": text, "stderr": p.stderr.decode("utf-8", "replace")[-600:], "rc": p.returncode})
+        return text.split()
     return json.loads(p.stdout.decode())
+
+
+def flush_lex_failures(out):
+    for f in LEX_FAILS:
+        out.report({"what": "panic", "query": "lex", "panic": "the lexer failed on a seed"}, {"case": {"files": [["m1", f["text"]]]}, "stderr": f["stderr"], "rc": f["rc"]})
+    del LEX_FAILS[:]
 
 
 def seeds(out, tier, seed, n_gen):
